@@ -7,7 +7,7 @@ PROP = {
             "filter x integers -3..12 x every string argument of length<=2 over the same alphabet (replace / replace_first: the "
             "replacement is one of '', e-acute, 'a&' or the pattern itself, and for receivers of four characters the pattern has "
             "length<=1; truncate / truncatewords: the default ellipsis and four given ones); upcase, downcase and capitalize on "
-            "single runes, alone and inside a string next to ASCII letters and invalid bytes: every rune U+0000..U+10FFFF and every block "
+            "single runes, alone and inside a string next to ASCII letters and invalid bytes: every rune U+0000..U+10FFFF (surrogates left out) and every block "
             "of 256 consecutive runes as one string (thorough), or (quick) a stratified sample computed from unicode.ToUpper/ToLower/ToTitle "
             "themselves - every rune one of them moves and its images, two runes either side of every point where the distance to the "
             "image changes, the ends of the planes and of the surrogate gap, the awkward runes (U+00B5 U+00DF U+00FF U+0130 U+0131 "
@@ -23,8 +23,10 @@ PROP = {
     "assumptions": [
         "the models of Liquid/Filters/Str.lean describe filters/standard_filters.go after the fix patches D2, D3, D16 and "
         "float-receiver-text (cfb5cad): checked by the strf stream on every run",
-        "float receivers of string filters are outside the model of the strf ops (StrF.recvToString answers none: unmodelled); "
-        "only the receiver-to-text oracle of the strf stream checks them on the real code",
+        "float receivers of string filters - and every receiver that is not nil, a boolean, an integer or a string (arrays, maps, drops, "
+        "times ...) - are outside the model of the strf ops (StrF.recvToString answers none: unmodelled); "
+        "only the receiver-to-text oracle of the strf stream checks float receivers on the real code, for the others (the arrays of the "
+        "stream's universe) it checks only that the real code does not panic, and size of an array",
         "the generic argument conversion of values.Call (receiver to text, defaults) is modelled by StrF.recvToString and the "
         "wrappers' documented argument shapes; its full model belongs to the call glue",
     ],
@@ -34,13 +36,13 @@ TEXT = {
     "text": "Theorems for every byte string (no length bound): append/prepend are concatenation and remove is replace with the "
             "empty string by definition of the model (append_spec, prepend_spec, remove_spec: rfl); upcase, downcase and capitalize answer "
             "on every byte string - every rune U+0000..U+10FFFF is looked up in the range tables of unicode.ToUpper / unicode.ToLower "
-            "that translator T6 regenerates from the toolchain, invalid bytes become U+FFFD (upcase_total, downcase_total, "
-            "capitalize_total); upcase and downcase are idempotent on every string (upcase_idem, downcase_idem: Greek, Cyrillic, "
+            "that translator T6 regenerates from the toolchain, invalid bytes become U+FFFD (upcase_total, downcase_total; "
+            "capitalize_total for a non-empty string, whose first character alone is decoded, capitalize_nil for the empty one); upcase and downcase are idempotent on every string (upcase_idem, downcase_idem: Greek, Cyrillic, "
             "Latin Extended, Armenian, Georgian, Cherokee, Deseret, fullwidth forms, U+00B5 -> U+039C, U+00FF -> U+0178, dotted and "
             "dotless i, the digraphs U+01C4..U+01CC, U+1E9E, Ohm, Kelvin and Angstrom signs included), keep the number of characters "
             "(case_len) but not the number of bytes (case_changes_byte_length: U+023A, two bytes, lower-cases to U+2C65, three bytes), "
             "map rune by rune (upcase_runes) to scalar values only (case_images_scalar); capitalize upper-cases - upper case, not title "
-            "case - the first character only (capitalize_spec); upcase after downcase after upcase is upcase rune-wise except on six "
+            "case - the first character only (capitalize_spec, for a non-empty string); upcase after downcase after upcase is upcase rune-wise except on six "
             "upper-case runes whose lower-case partner has another upper-case form, U+0130 U+03F4 U+1E9E U+2126 U+212A U+212B "
             "(upper_lower_upper_except, and upper_lower_upper_fails: on each of the six the law does fail; the list is regenerated "
             "and checked to be exact); "
@@ -50,7 +52,8 @@ TEXT = {
             "and is empty or not a suffix of the text (split drops trailing empty pieces); "
             "size/slice/truncate count characters, slice and truncate never lengthen a string that fits, truncatewords leaves a text "
             "of at most n words unchanged; escape leaves no raw < > ' \" and every & starts an entity, unescape inverts escape, "
-            "escape_once is idempotent whenever it is modelled (escape_once_idem_partial: no named entity outside amp lt gt quot apos); "
+            "escape_once is idempotent whenever it is modelled (escape_once_idem_partial: no named entity outside amp lt gt quot apos; there is no unconditional version), and unconditionally "
+            "leaves the output of escape unchanged (escape_once_escape); "
             "url_decode inverts url_encode; valid UTF-8 receiver and arguments give valid UTF-8 for every filter but url_decode "
             "(url_decode_not_preserving); nil, boolean, integer and string receivers convert to the text they print as "
             "(recv_to_string: rfl on StrF.recvToString; floats are outside the model). The models are compared with the "
@@ -62,5 +65,7 @@ TEXT = {
             "oracle alone checks the real code (for float receivers: the receiver-to-text oracle). The case mapping is Go's SIMPLE mapping, "
             "rune to rune, as the code uses it: no special casing (upcase of U+00DF stays U+00DF, not SS), no locale (Turkish i), "
             "no title case in capitalize; the theorems say what the filters do with it, not that it is the case mapping a reader expects.",
-    "technique": "Lean 4 proof (induction over byte strings / runes) + model/implementation correspondence + implementation-side oracle",
+    "technique": "Lean 4 proof (induction over byte strings / runes; for the case mapping interval checkers over the range tables, proved "
+                 "sound for every table and evaluated by the kernel on the tables translator T6 regenerates from the toolchain on every run) "
+                 "+ model/implementation correspondence + implementation-side oracle",
 }
